@@ -128,6 +128,9 @@ def struct_leafs(em, sname):
     out = []
 
     def walk(sn, prefix):
+        if sn not in em.structs:
+            out.append((prefix + "?", "opaque"))
+            return
         txt = em.structs[sn]
         for m in re.finditer(r"^\s+(.*?);\s*$", txt, re.M):
             d = m.group(1).strip()
